@@ -304,6 +304,185 @@ Arguments ad_min {O}. Arguments ad_max {O}. Arguments ad_inc {O}. Arguments ad_d
 Arguments ad_rate {O}. Arguments ad_tokens {O}. Arguments ad_last {O}.
 
 (* ------------------------------------------------------------------ *)
+(** * RateLimitedEntity (rate_limited_entity.py) as a step machine over ANY policy.
+
+    One step per [handle_event] call.  Requests carry an id (their arrival index);
+    the FIFO buffer is a list of ids, oldest first.  Outputs: the forwarded request
+    (event at [now] to the downstream) and the self-scheduled daemon poll. *)
+Inductive ein := EReq (id now : Z) | EPoll (now : Z).
+Inductive eout := OFwd (id now : Z) | OPoll (at_ : Z).
+
+Definition ein_time (i : ein) : Z := match i with EReq _ t | EPoll t => t end.
+
+Section Entity.
+  Variable PS : Type.
+  Variable pacq : PS -> Z -> PS * bool.      (* policy.try_acquire *)
+  Variable ptua : PS -> Z -> PS * Z.         (* policy.time_until_available *)
+  Variable cap : Z.                          (* queue_capacity *)
+
+  Record ent := {
+    e_pol : PS; e_queue : list Z; e_poll : bool;
+    e_recv : Z; e_fwd : Z; e_queued : Z; e_drop : Z;
+  }.
+
+  (** [_ensure_poll_scheduled] *)
+  Definition ensure_poll (e : ent) (now : Z) : ent * list eout :=
+    if e_poll e then (e, [])
+    else let '(ps, w) := ptua (e_pol e) now in
+         ({| e_pol := ps; e_queue := e_queue e; e_poll := true;
+             e_recv := e_recv e; e_fwd := e_fwd e; e_queued := e_queued e; e_drop := e_drop e |},
+          [OPoll (now + w)]).
+
+  (** [_handle_request]; third component: ids dropped by this call (ghost, for the theorems) *)
+  Definition ent_request (e : ent) (id now : Z) : ent * list eout * list Z :=
+    let '(ps, ok) := pacq (e_pol e) now in
+    if ok then
+      ({| e_pol := ps; e_queue := e_queue e; e_poll := e_poll e;
+          e_recv := e_recv e + 1; e_fwd := e_fwd e + 1; e_queued := e_queued e; e_drop := e_drop e |},
+       [OFwd id now], [])
+    else if Z.of_nat (length (e_queue e)) <? cap then
+      let e1 := {| e_pol := ps; e_queue := e_queue e ++ [id]; e_poll := e_poll e;
+                   e_recv := e_recv e + 1; e_fwd := e_fwd e; e_queued := e_queued e + 1; e_drop := e_drop e |} in
+      let '(e2, outs) := ensure_poll e1 now in (e2, outs, [])
+    else
+      ({| e_pol := ps; e_queue := e_queue e; e_poll := e_poll e;
+          e_recv := e_recv e + 1; e_fwd := e_fwd e; e_queued := e_queued e; e_drop := e_drop e + 1 |},
+       [], [id]).
+
+  (** [_handle_poll] *)
+  Definition ent_poll (e : ent) (now : Z) : ent * list eout * list Z :=
+    let e0 := {| e_pol := e_pol e; e_queue := e_queue e; e_poll := false;
+                 e_recv := e_recv e; e_fwd := e_fwd e; e_queued := e_queued e; e_drop := e_drop e |} in
+    match e_queue e with
+    | [] => (e0, [], [])
+    | qid :: rest =>
+        let '(ps, ok) := pacq (e_pol e) now in
+        if ok then
+          let e1 := {| e_pol := ps; e_queue := rest; e_poll := false;
+                       e_recv := e_recv e; e_fwd := e_fwd e + 1; e_queued := e_queued e; e_drop := e_drop e |} in
+          match rest with
+          | [] => (e1, [OFwd qid now], [])
+          | _ => let '(e2, outs) := ensure_poll e1 now in (e2, OFwd qid now :: outs, [])
+          end
+        else
+          let e1 := {| e_pol := ps; e_queue := e_queue e; e_poll := false;
+                       e_recv := e_recv e; e_fwd := e_fwd e; e_queued := e_queued e; e_drop := e_drop e |} in
+          let '(e2, outs) := ensure_poll e1 now in (e2, outs, [])
+    end.
+
+  Definition ent_step (e : ent) (i : ein) : ent * list eout * list Z :=
+    match i with EReq id now => ent_request e id now | EPoll now => ent_poll e now end.
+
+  Definition ent_init (ps : PS) : ent :=
+    {| e_pol := ps; e_queue := []; e_poll := false; e_recv := 0; e_fwd := 0; e_queued := 0; e_drop := 0 |}.
+
+  (** Run: final state, all outputs in order, all dropped ids in order. *)
+  Fixpoint ent_run (e : ent) (ins : list ein) : ent * list eout * list Z :=
+    match ins with
+    | [] => (e, [], [])
+    | i :: r => let '(e1, o1, d1) := ent_step e i in
+                let '(e2, o2, d2) := ent_run e1 r in (e2, o1 ++ o2, d1 ++ d2)
+    end.
+
+  Definition fwd_ids (outs : list eout) : list Z :=
+    flat_map (fun o => match o with OFwd id _ => [id] | OPoll _ => [] end) outs.
+  Definition req_ids (ins : list ein) : list Z :=
+    flat_map (fun i => match i with EReq id _ => [id] | EPoll _ => [] end) ins.
+
+  (** Schedules the engine can produce for this entity: times never decrease, a poll is
+      delivered exactly at the time the entity asked for, and no request is delivered after
+      the instant of a pending poll (at the same instant either order is possible: the
+      engine breaks ties by event creation order).  [pend] = time of the pending poll. *)
+  Definition pend_after (pend : option Z) (i : ein) (outs : list eout) : option Z :=
+    let p0 := match i with EPoll _ => None | _ => pend end in
+    fold_left (fun p o => match o with OPoll t => Some t | _ => p end) outs p0.
+
+  Fixpoint sched_ok (e : ent) (last : Z) (pend : option Z) (ins : list ein) : bool :=
+    match ins with
+    | [] => true
+    | i :: r =>
+        let t := ein_time i in
+        (last <=? t) &&
+        match i, pend with
+        | EPoll _, Some pt => t =? pt
+        | EPoll _, None => false
+        | EReq _ _, Some pt => t <=? pt
+        | EReq _ _, None => true
+        end &&
+        let '(e1, o1, _) := ent_step e i in sched_ok e1 t (pend_after pend i o1) r
+    end.
+End Entity.
+
+Arguments e_pol {PS}. Arguments e_queue {PS}. Arguments e_poll {PS}.
+Arguments e_recv {PS}. Arguments e_fwd {PS}. Arguments e_queued {PS}. Arguments e_drop {PS}.
+
+(** The four self-contained policies as one type (for the entity correspondence). *)
+Section PolSum.
+  Variable O : numops.
+  Inductive pol_cfg := CTb (p : tbp O) | CLk (iv : num O) | CSw (wn n : Z) | CFw (wn n : Z).
+  Inductive pol_st := STb (s : tbs O) | SLk (s : option Z) | SSw (log : list Z) | SFw (s : fws).
+  Inductive pol_obs := OTb (tokens : num O) (last : option Z) | OLk (last : option Z)
+                     | OSw (log : list Z) | OFw (start : option Z) (count : Z).
+
+  Definition pol_acq (c : pol_cfg) (s : pol_st) (now : Z) : pol_st * bool :=
+    match c, s with
+    | CTb p, STb s => let '(s', b) := tb_acquire O p s now in (STb s', b)
+    | CLk iv, SLk s => let '(s', b) := lk_acquire O iv s now in (SLk s', b)
+    | CSw wn n, SSw s => let '(s', b) := sw_acquire wn n s now in (SSw s', b)
+    | CFw wn n, SFw s => let '(s', b) := fw_acquire wn n s now in (SFw s', b)
+    | _, _ => (s, false)
+    end.
+  Definition pol_tua (c : pol_cfg) (s : pol_st) (now : Z) : pol_st * Z :=
+    match c, s with
+    | CTb p, STb s => let '(s', w) := tb_tua O p s now in (STb s', w)
+    | CLk iv, SLk s => (SLk s, lk_tua O iv s now)
+    | CSw wn n, SSw s => let '(s', w) := sw_tua O wn n s now in (SSw s', w)
+    | CFw wn n, SFw s => let '(s', w) := fw_tua O wn n s now in (SFw s', w)
+    | _, _ => (s, 0)
+    end.
+  Definition pol_same (s : pol_st) (o : pol_obs) : bool :=
+    match s, o with
+    | STb s, OTb tk l => neqb O (tb_tokens s) tk && option_eqb Z.eqb (tb_last s) l
+    | SLk s, OLk l => option_eqb Z.eqb s l
+    | SSw s, OSw l => list_eqb Z.eqb s l
+    | SFw s, OFw st c => option_eqb Z.eqb (fw_start s) st && (fw_count s =? c)
+    | _, _ => false
+    end.
+
+  Definition eout_eqb (a b : eout) : bool :=
+    match a, b with
+    | OFwd i t, OFwd j u => (i =? j) && (t =? u)
+    | OPoll t, OPoll u => t =? u
+    | _, _ => false
+    end.
+
+  (** observation after one handle_event: outputs, queue ids, poll flag, (received, forwarded, queued, dropped), policy state *)
+  Definition eobs : Type := list eout * list Z * bool * (Z * Z * Z * Z) * pol_obs.
+
+  Fixpoint ok_ent_run (c : pol_cfg) (cap : Z) (e : ent pol_st) (tr : list (ein * eobs)) : bool :=
+    match tr with
+    | [] => true
+    | (i, (outs, q, pf, (rc, fw, qd, dr), po)) :: rest =>
+        let '(e1, o1, _) := ent_step pol_st (pol_acq c) (pol_tua c) cap e i in
+        list_eqb eout_eqb o1 outs && list_eqb Z.eqb (e_queue e1) q && Bool.eqb (e_poll e1) pf &&
+        (e_recv e1 =? rc) && (e_fwd e1 =? fw) && (e_queued e1 =? qd) && (e_drop e1 =? dr) &&
+        pol_same (e_pol e1) po && ok_ent_run c cap e1 rest
+    end.
+
+  (** case: (policy config, initial policy state, queue capacity, recorded trace).  Also checks
+      that the recorded schedule is one the model considers possible ([sched_ok]). *)
+  Definition ok_ent (x : pol_cfg * pol_st * Z * list (ein * eobs)) : bool :=
+    let '(c, s0, cap, tr) := x in
+    let e0 := ent_init pol_st s0 in
+    ok_ent_run c cap e0 tr &&
+    sched_ok pol_st (pol_acq c) (pol_tua c) cap e0 (match tr with [] => 0 | (i, _) :: _ => ein_time i end) None (map fst tr).
+End PolSum.
+
+Arguments CTb {O}. Arguments CLk {O}. Arguments CSw {O}. Arguments CFw {O}.
+Arguments STb {O}. Arguments SLk {O}. Arguments SSw {O}. Arguments SFw {O}.
+Arguments OTb {O}. Arguments OLk {O}. Arguments OSw {O}. Arguments OFw {O}.
+
+(* ------------------------------------------------------------------ *)
 (** * Instance 1: exact rationals *)
 Definition G : Q := 1000000000 # 1.
 
@@ -366,3 +545,5 @@ Definition ok_fw_q := ok_fw Qops.
 Definition ok_fw_f := ok_fw Fops.
 Definition ok_ad_q := ok_ad Qops.
 Definition ok_ad_f := ok_ad Fops.
+Definition ok_ent_q := ok_ent Qops.
+Definition ok_ent_f := ok_ent Fops.
